@@ -1,5 +1,6 @@
 import Rp2.Model.Tx
 import Rp2.Model.Engine
+import Rp2.Model.Group
 namespace Rp2
 
 /-- schedule: (year, method) pairs; slot of a year = index of the greatest entry year ≤ it -/
@@ -108,15 +109,15 @@ structure YSums where
   cost : Rat
   gain : Rat
 
+def YSums.add (s x : YSums) : YSums := ⟨dadd s.amt x.amt, dadd s.fiat x.fiat, dadd s.cost x.cost, dadd s.gain x.gain⟩
+def YSums.zero : YSums := ⟨0, 0, 0, 0⟩
+/-- the summary key of a fraction: local year of the *taxable event*, its type, long/short -/
+def yearKey (period : Int) (f : Fraction) : YKey := ⟨f.ev.ts.year, f.ev.typ, f.isLong period⟩
+def yearVal (f : Fraction) : YSums := ⟨ofUnits f.amt, f.proceeds, f.cost, f.gain⟩
+
+/-- `_create_yearly_gain_loss_list`: insertion-ordered group-by with decimal running sums -/
 def yearly (period : Int) (fs : List Fraction) : List (YKey × YSums) :=
-  fs.foldl (fun acc f =>
-    let k : YKey := ⟨f.ev.ts.year, f.ev.typ, f.isLong period⟩
-    let rec bump : List (YKey × YSums) → List (YKey × YSums)
-      | [] => [(k, ⟨dadd 0 (ofUnits f.amt), dadd 0 f.proceeds, dadd 0 f.cost, dadd 0 f.gain⟩)]
-      | (k', s) :: t =>
-        if k' = k then (k', ⟨dadd s.amt (ofUnits f.amt), dadd s.fiat f.proceeds, dadd s.cost f.cost, dadd s.gain f.gain⟩) :: t
-        else (k', s) :: bump t
-    bump acc) []
+  group YSums.add YSums.zero (fs.map (fun f => (yearKey period f, yearVal f)))
 
 /-- balances: chronological replay of in + intra + out -/
 inductive AnyTx | i (t : InTx) | x (t : IntraTx) | o (t : OutTx)
